@@ -283,6 +283,13 @@ def g_scenario(tape_bytes, foreign):
           "qq": t.pick(QQS), "cmds": cmds, "cut": None}
     if excl:
         sc["excl"] = excl
+    if t.flag(1, 6):
+        # one system call of the daemon fails once (interface lookup, control-file open/read, network read): it may refuse or give up, but
+        # whatever it accepts must still obey the rules (added after seeded change C08-D)
+        sc["sysfault"] = {"cls": t.pick(["socket", "open", "open", "read", "read", "open"]), "k": t.pick(list(range(14))),
+                          "errno": t.pick([23, 5, 13, 12])}
+        if sc["sysfault"]["cls"] in ("socket", "open") and t.flag():
+            sc["sysfault"]["persist"] = True        # the condition lasts (descriptor table full): every later call of the class fails too
     return sc
 
 
@@ -339,6 +346,15 @@ def grid(foreign):
                         continue
                     out.append({"d": "smtpd", "env": {"RELAYCLIENT": None if relay is None else J(relay)}, "ctl": ctl, "db": None, "qq": qq,
                                 "cmds": cmds, "cut": None, "grid": name})
+    # every early system call of the daemon failing once, against the sessions that exercise the relay rules
+    for name in ("iplit", "mixed_rcpts", "case_and_more", "bmf"):
+        for cls, n in (("socket", 2), ("open", 12), ("read", 12)):
+            for k in range(n):
+                for er in (23, 13):
+                    for persist in ((False, True) if cls != "read" else (False,)):
+                        out.append({"d": "smtpd", "env": {"RELAYCLIENT": None}, "ctl": dict(ctl0), "db": None, "qq": {"mode": "qq", "exit": 0},
+                                    "cmds": seqs[name], "cut": None, "grid": name + "_sysfault",
+                                    "sysfault": {"cls": cls, "k": k, "errno": er, "persist": persist}})
     return out
 
 
@@ -415,6 +431,12 @@ def run_case(r, sc, stats, local_ips):
         classes.append("arg_outside_grammar")
     if any(b"[127.0.0.1]>" in B(c["line"]) for c in sc["cmds"]):
         classes.append("ip_literal_local")
+    if sc.get("sysfault"):
+        classes.append("sysfault_" + sc["sysfault"]["cls"])
+        if info.get("gave_up"):
+            classes.append("sysfault_daemon_gave_up")
+        elif info.get("neg4"):
+            classes.append("sysfault_temporary_refusal")
     if info.get("slack"):
         stats.slack += 1
     nontrivial = bool((info.get("rcpt_ok") and info.get("rcpt_no")) or info.get("resets_in_txn"))
